@@ -253,9 +253,10 @@ def skeleton(t):
     if "x" in t:
         return ("X", t["x"])
     if "d" in t:
-        return ("D", tuple((k, skeleton(c)) for k, c in t["d"]))
+        return ("D", tuple(sorted(((k, skeleton(c)) for k, c in t["d"]), key=repr)))
     if "o" in t:
-        return ("O", tuple((k, skeleton(c)) for k, c in t["o"]))
+        # the order in which attributes were set is not part of the shape (two fits may set them in different orders)
+        return ("O", tuple(sorted(((k, skeleton(c)) for k, c in t["o"]), key=repr)))
     if "l" in t:
         return ("L", tuple(skeleton(c) for c in t["l"]))
     return ("T", tuple(skeleton(c) for c in t["t"]))
@@ -272,9 +273,9 @@ def nonfloat_part(t):
     if "x" in t:
         return ("X", t["x"])
     if "d" in t:
-        return ("D", tuple((k, nonfloat_part(c)) for k, c in t["d"]))
+        return ("D", tuple(sorted(((k, nonfloat_part(c)) for k, c in t["d"]), key=repr)))
     if "o" in t:
-        return ("O", tuple((k, nonfloat_part(c)) for k, c in t["o"]))
+        return ("O", tuple(sorted(((k, nonfloat_part(c)) for k, c in t["o"]), key=repr)))
     if "l" in t:
         return ("L", tuple(nonfloat_part(c) for c in t["l"]))
     return ("T", tuple(nonfloat_part(c) for c in t["t"]))
@@ -362,9 +363,13 @@ def lsq_exact(xs, ys, v):
 # ---------------------------------------------------------------------------
 # generator
 # ---------------------------------------------------------------------------
-OBJ_NAMES = ["gaussian", "galaxy", "lens", "source", "disk", "bulge", "halo", "profile", "light", "mass"]
-F_NAMES = ["centre", "sigma", "normalization", "intensity", "radius", "slope", "ell", "angle", "flux", "scale"]
-VAR_NAMES = ["t", "time", "wavelength", "z", "epoch"]
+OBJ_NAMES = ["gaussian", "galaxy", "lens", "source", "disk", "bulge", "halo", "profile", "light", "mass",
+             "galaxy_0", "lens1", "value", "instance", "items", "model"]
+F_NAMES = ["centre", "sigma", "normalization", "intensity", "radius", "slope", "ell", "angle", "flux", "scale",
+           "centre_0", "sigma1", "x_", "path", "cls", "prior", "values"]
+VAR_NAMES = ["t", "time", "wavelength", "z", "epoch", "t_0", "z2", "time_"]
+DICT_KEYS = ["a", "b", "amp", "phi", "0", "a.b", "a_1"]
+ROUTES = ["chain", "explicit", "prefix", "reuse"]
 
 
 def dy(rng, lo=-40, hi=40, q=4):
@@ -379,12 +384,34 @@ def gen_slot(rng):
         return {"k": "F", "mode": "quad", "a": dy(rng, -8, 8), "b": dy(rng, -8, 8), "c": dy(rng)}
     if r < 0.85:
         return {"k": "F", "mode": "rand", "scale": 10.0 ** rng.randint(-3, 3)}
-    return {"k": "F", "mode": "const", "c": dy(rng) if rng.random() < 0.7 else rng.uniform(-5, 5)}
+    r2 = rng.random()
+    return {"k": "F", "mode": "const", "c": dy(rng) if r2 < 0.6 else rng.uniform(-5, 5) if r2 < 0.8 else rng.choice([0.0, -0.0])}
+
+
+NUMBERED = [["main", "0", "1"], ["1", "0"], ["a", "0"], ["0", "1"], ["2", "0", "1"], ["x_1", "1", "0"], ["10", "9", "0"]]
+
+
+def gen_numbered(rng, names=None):
+    """A collection as af.Collection(main=...) followed by .append(...) yields it (and its out-of-order relatives):
+    item NAMES that are digit strings and differ from the items' positions.  Names are names, never positions."""
+    def comp():
+        if rng.random() < 0.6:
+            return {"k": "O", "cls": "gauss", "fields": [(nm, gen_slot(rng)) for nm in ("centre", "normalization", "sigma")]}
+        return gen_slot(rng)
+    return {"k": "O", "cls": "mi", "numbered": True, "fields": [(nm, comp()) for nm in (names or rng.choice(NUMBERED))]}
+
+
+def has_numbered(shape):
+    if shape.get("numbered"):
+        return True
+    return any(has_numbered(c) for c in ([c for _, c in shape["fields"]] if "fields" in shape else shape.get("items", [])))
 
 
 def gen_shape(rng, d, opts):
     """A component: object / list / tuple / leaf slot."""
     r = rng.random()
+    if d >= 1 and rng.random() < 0.06:
+        return gen_numbered(rng)
     if d <= 0 or r < 0.25:
         r2 = rng.random()
         if r2 < 0.80:
@@ -397,13 +424,13 @@ def gen_shape(rng, d, opts):
             return {"k": "O", "cls": "gauss",
                     "fields": [(nm, gen_slot(rng)) for nm in ("centre", "normalization", "sigma")]}
         n = rng.randint(1, 4)
-        names = rng.sample(F_NAMES + OBJ_NAMES[:4], n)
+        names = rng.sample(F_NAMES + OBJ_NAMES[:4] + OBJ_NAMES[10:13], n)
         fields = [(nm, gen_shape(rng, d - 1, opts)) for nm in names]
         if opts.get("private") and rng.random() < 0.5:
             fields.insert(rng.randint(0, len(fields)), ("_cache%d" % rng.randint(0, 3), gen_slot(rng)))
         return {"k": "O", "cls": rng.choice(["obj", "obj", "mi"]), "fields": fields}
     if opts.get("dicts") and r < 0.80:
-        return {"k": "D", "fields": [(nm, gen_slot(rng)) for nm in rng.sample(["a", "b", "amp", "phi"], rng.randint(1, 2))]}
+        return {"k": "D", "fields": [(nm, gen_slot(rng)) for nm in rng.sample(DICT_KEYS, rng.randint(1, 2))]}
     if r < 0.88 or not opts.get("tuples"):
         return {"k": "L", "items": [gen_shape(rng, d - 1, opts) for _ in range(rng.randint(0, 3))]}
     return {"k": "T", "items": [gen_slot(rng) for _ in range(rng.randint(1, 3))]}
@@ -469,6 +496,23 @@ def gen_abscissae(rng, n, kind):
         vals = rng.sample([x / 4.0 for x in range(-20, 21)], n - k) + rng.sample([math.inf, -math.inf], k)
         rng.shuffle(vals)
         return vals
+    if kind == "zerospan":
+        # both signs, zero is NOT sampled: 0 / 0.0 / -0.0 are ordinary off-node query values
+        neg = rng.sample([x / 4.0 for x in range(-20, 0)], max(1, n // 2))
+        vals = neg + rng.sample([x / 4.0 for x in range(1, 21)], n - len(neg))
+        rng.shuffle(vals)
+        return vals
+    if kind == "zeronode":
+        # zero IS sampled (as 0.0 or the int 0), and is the smallest, the largest or an inner abscissa
+        side = rng.choice(["min", "max", "inner"]) if n >= 3 else rng.choice(["min", "max"])
+        pos = rng.sample([x / 4.0 for x in range(1, 21)], n - 1)
+        if side == "max":
+            pos = [-x for x in pos]
+        elif side == "inner":
+            pos[0] = -pos[0]
+        vals = pos + [rng.choice([0.0, 0])]
+        rng.shuffle(vals)
+        return vals
     if kind == "negzero":
         vals = rng.sample([x / 4.0 for x in range(-20, 21) if x != 0], n - 1) + [-0.0]
         rng.shuffle(vals)
@@ -483,23 +527,26 @@ def gen_abscissae(rng, n, kind):
     return vals
 
 
-def gen_series(rng, thorough):
+def gen_series(rng, thorough, force=None):
+    force = force or {}
     opts = {"tuples": rng.random() < 0.12, "private": rng.random() < 0.15, "dicts": rng.random() < 0.06}
     n = rng.choice([2, 2, 3, 3, 3, 4, 4, 5, 6, 7] + ([8, 9] if thorough else []))
-    akind = rng.choice(["dyadic"] * 10 + ["arbitrary"] * 4 + ["int"] * 2 + ["mixed"] * 2 + ["dup"] * 1 + ["negzero"] * 1 + ["inf"] * 1)
+    akind = rng.choice(["dyadic"] * 10 + ["arbitrary"] * 4 + ["int"] * 2 + ["mixed"] * 2 + ["dup"] * 1 + ["negzero"] * 1 + ["inf"] * 1 + ["zerospan"] * 1 + ["zeronode"] * 1)
     var = rng.choice(VAR_NAMES)
     nf = rng.randint(1, 4)
     names = rng.sample(OBJ_NAMES + F_NAMES[:3], nf)
     fields = [(nm, gen_shape(rng, rng.randint(1, 3), opts)) for nm in names]
     root = {"k": "O", "cls": "mi", "fields": fields}
-    via_collection = rng.random() < 0.12
+    via_collection = rng.random() < 0.12 and not force
     if via_collection:
         # the shape a fit produces: a Collection of Gaussians (possibly one level of nested collections)
         def gauss():
             return {"k": "O", "cls": "gauss", "fields": [(nm, gen_slot(rng)) for nm in ("centre", "normalization", "sigma")]}
         fields = [(nm, gauss()) for nm in rng.sample(OBJ_NAMES, rng.randint(1, 3))]
-        if rng.random() < 0.4:
-            fields.append(("group", {"k": "O", "cls": "mi", "fields": [(nm, gauss()) for nm in rng.sample(["a", "b", "c"], rng.randint(1, 2))]}))
+        if rng.random() < 0.5:
+            # a nested collection: named items, or a named item followed by positional ones (Collection.append names them "0", "1", ...)
+            gnames = rng.sample(["a", "b", "c"], rng.randint(1, 2)) if rng.random() < 0.5 else rng.choice(NUMBERED)
+            fields.append(("group", {"k": "O", "cls": "mi", "numbered": gnames[0] not in "abc", "fields": [(nm, gauss()) for nm in gnames]}))
         root = {"k": "O", "cls": "mi", "fields": fields}
         akind = rng.choice(["dyadic", "dyadic", "arbitrary"])
     qpath = [var]
@@ -525,6 +572,17 @@ def gen_series(rng, thorough):
         var2 = rng.choice([v for v in VAR_NAMES + ["u", "phase"] if v != var and v not in dict(root["fields"])])
         root["fields"].insert(rng.randint(0, len(root["fields"])),
                               (var2, {"k": "F", "mode": "var2", "a": rng.choice([-2.0, -0.5, 0.5, 1.0, 3.0]), "b": dy(rng)}))
+    if force.get("special") == "numbered":
+        root["fields"].append(("profiles", gen_numbered(rng, rng.choice(NUMBERED[:3]))))
+    if force.get("special") == "alias" and not via_collection:
+        # a list of components at the root whose first element will also be its last (one object twice in a container)
+        def comp():
+            return {"k": "O", "cls": rng.choice(["obj", "gauss"]), "fields": [(nm, gen_slot(rng)) for nm in ("centre", "normalization", "sigma")]}
+        root["fields"].append(("components", {"k": "L", "items": [comp() for _ in range(rng.randint(1, 2))]}))
+    if force.get("akind") and not via_collection:
+        akind = force["akind"]
+        # a parameter that is exactly 0.0 at t = 0 (an interpolated value may legitimately be zero)
+        root["fields"].append(("offset_0", {"k": "F", "mode": "lin", "a": dy(rng, 1, 12), "b": 0.0}))
     ts = gen_abscissae(rng, n, akind)
     insts = [instantiate(root, t, rng) for t in ts]
     feats = {"abscissa": akind, "n": n, "nested_var": nested_var, "second_variable": var2 is not None}
@@ -533,6 +591,7 @@ def gen_series(rng, thorough):
         sl = dict(root["fields"])[var2]
         feats["var2"] = [var2, sl["a"], sl["b"]]
     feats["primary"] = list(qpath)
+    feats["numbered"] = has_numbered(root)
     if via_collection:
         feats["via"] = "collection"
         for t in insts:
@@ -540,8 +599,31 @@ def gen_series(rng, thorough):
         if rng.random() < 0.5:
             feats["frozen"] = True            # frozen instances answer the walk from their cache
     else:
-        r0 = rng.random()
-        if r0 < 0.08:
+        r0 = rng.random() if not force.get("special") else {"attr_order": 0.30, "alias": 0.01, "numbered": 0.5}[force["special"]]
+        if 0.25 <= r0 < 0.33:
+            # the instances set their attributes in different orders (root and plain nested objects)
+            def reorder(t):
+                if "o" in t and t.get("cls") != "gauss":
+                    rng.shuffle(t["o"])
+                for c in ([c for _, c in t["o"]] if "o" in t else t.get("l", [])):
+                    reorder(c)
+            for t in insts[1:]:
+                reorder(t)
+            feats["attr_order"] = True
+        lists = [k for k, c in insts[0]["o"] if "l" in c and c["l"] and "o" in c["l"][0] and [k] != qpath[:1]]
+        if r0 < 0.08 and lists and (force.get("special") == "alias" or rng.random() < 0.5):
+            # one component object twice in a list (items[0] is items[-1])
+            import copy as _copy
+            src = rng.choice(lists)
+            for t in insts:
+                lst = dict((k, c) for k, c in t["o"])[src]["l"]
+                lst.append(_copy.deepcopy(lst[0]))
+            k_new = len(dict((k, c) for k, c in insts[0]["o"])[src]["l"]) - 1
+            feats["alias"] = [[src, 0], [src, k_new]]
+            feats["alias_in_list"] = True
+            feats["lin_slots"].update({json.dumps([src, k_new] + json.loads(k)[2:]): v
+                                       for k, v in list(feats["lin_slots"].items()) if json.loads(k)[:2] == [src, 0]})
+        elif r0 < 0.08:
             # one component object held at two attributes of every instance (a is b)
             cands = [k for k, c in insts[0]["o"] if "o" in c and [k] != qpath[:1]]
             if cands:
@@ -564,7 +646,7 @@ def gen_series(rng, thorough):
                         leaf["a"] = leaf.pop("f")
             feats["array_leaves"] = True
     # rare structural irregularities
-    r = rng.random() if not (via_collection or feats.get("alias")) else 1.0
+    r = rng.random() if not (via_collection or feats.get("alias") or feats.get("attr_order")) else 1.0
     if r < 0.05:
         # one instance holds an int where the others hold a float
         cands = [p for p in walk(insts[0]) if list(p) != qpath]
@@ -610,32 +692,71 @@ def gen_series(rng, thorough):
             perms.append(p)
     perms = perms[:1] + rng.sample(perms[1:], min(len(perms) - 1, 2))     # at most three orders
     # query values, per interpolation variable
-    plan = [(qpath, kind, qv) for kind, qv in gen_qvals(rng, ts, full=True)]
+    plan = [(qpath, kind, qv) for kind, qv in gen_qvals(rng, ts, full=True, zero=akind in ("zerospan", "zeronode"))]
     if var2 is not None:
         us = [num_of(t_get(t, (var2,))) for t in insts]
         plan += [([var2], kind, qv) for kind, qv in gen_qvals(rng, us, full=False)]
     queries = []
+    nroute = rng.randrange(len(ROUTES))
     for perm in perms:
         order = list(plan)
         rng.shuffle(order)                      # the two variables interleave on one interpolator
-        if rng.random() < 0.5:
-            order.append(rng.choice(order))     # and one query is asked a second time
+        order.append(rng.choice(order))         # and one query is asked a second time (through another route)
         for path, kind, qv in order:
+            # the routes to one query: attribute chain, explicit InterpolatorPath/Equality, kept prefix path objects that
+            # are also extended elsewhere, an Equality object kept by the user and asked again (also of other interpolators)
+            nroute += 1
             for method in ("linear", "spline"):
-                queries.append({"perm": perm, "method": method, "path": list(path), "qkind": kind,
+                queries.append({"perm": perm, "method": method, "path": list(path), "qkind": kind, "route": ROUTES[nroute % len(ROUTES)],
                                 "value": {"i": qv} if isinstance(qv, int) else F(qv)})
+    # one interpolator OBJECT whose series is changed between queries (use - change - use again): `instances` assigned
+    # a new list, the list it hands out edited in place, a query that raises in between, the returned instance edited
+    # by the caller before the same query is asked again.  Every answer must be that of a fresh interpolator.
+    if force.get("history") or rng.random() < 0.5:
+        base = perms[0]
+        inside = [qv for path, kind, qv in plan if path == qpath and kind == "inside"][0]
+        missing = list(qpath[:-1]) + [qpath[-1] + "_missing"]
+        hq = []
+        if n >= 3:
+            d = rng.randrange(n)
+            sub = [j for j in base if j != base[d]]
+            if rng.random() < 0.5:
+                rng.shuffle(sub)
+            dropped_t = ts[base[d]]
+            hq += [(base, "hist-first", qpath, inside, {}),
+                   (sub, "hist-after-assign", qpath, inside, {"how": "assign"}),
+                   (sub, "hist-dropped-node", qpath, dropped_t, {}),
+                   (sub, "hist-raises", missing, inside, {}),
+                   (sub + [base[d]], "hist-node-back", qpath, dropped_t, {"how": "edit"}),
+                   (sub + [base[d]], "hist-scribbled", qpath, inside, {"scribble": True}),
+                   (sub + [base[d]], "hist-after-scribble", qpath, inside, {})]
+        else:
+            back = list(reversed(base))
+            hq += [(base, "hist-first", qpath, inside, {"scribble": True}),
+                   (base, "hist-raises", missing, inside, {}),
+                   (back, "hist-after-edit", qpath, inside, {"how": "edit"}),
+                   (base, "hist-after-assign", qpath, inside, {"how": "assign"})]
+        for k, (perm, kind, path, qv, extra) in enumerate(hq):
+            for method in ("linear", "spline"):
+                queries.append(dict({"perm": list(perm), "method": method, "path": list(path), "qkind": kind, "obj": "H",
+                                     "route": "reuse" if k % 2 == 0 else "chain",
+                                     "value": {"i": qv} if isinstance(qv, int) else F(qv)}, **extra))
+        feats["history"] = True
     return {"kind": "series", "insts": insts, "queries": queries, "feats": feats}
 
 
-def gen_qvals(rng, ts, full):
+def gen_qvals(rng, ts, full, zero=False):
     fs = sorted(float(t) for t in ts if math.isfinite(float(t)))
     has_inf = len(fs) < len(ts)
     if len(fs) < 2:
         fs = sorted(fs + [(fs[0] if fs else 0.0) + 1.0, (fs[0] if fs else 0.0) - 1.0])
     lo, hi = fs[0], fs[-1]
     qvals = []
-    node = rng.choice(ts)
-    qvals.append(("node", float(node) if rng.random() < 0.7 else node))
+    # the node asked is the smallest / the largest abscissa as often as an arbitrary one
+    r = rng.random()
+    finite_ts = [t for t in ts if math.isfinite(float(t))] or list(ts)
+    node = min(finite_ts, key=float) if r < 0.3 else max(finite_ts, key=float) if r < 0.6 else rng.choice(ts)
+    qvals.append(("node-min" if r < 0.3 else "node-max" if r < 0.6 else "node", float(node) if rng.random() < 0.7 else node))
     if full and float(node).is_integer() and rng.random() < 0.3:
         qvals.append(("node-int", int(float(node))))
     for _ in range(rng.randint(1, 2) if full else 1):
@@ -655,6 +776,11 @@ def gen_qvals(rng, ts, full):
         qvals.append(("inf-query", rng.choice([math.inf, -math.inf])))
     if full and rng.random() < 0.05:
         qvals.append(("negzero-query", -0.0))
+    if full and lo <= 0.0 <= hi and rng.random() < (1.0 if zero else 0.3):
+        # exactly zero: a node or an ordinary value, as float, int or negative zero
+        qvals.append(("zero-query", rng.choice([0.0, 0, -0.0])))
+        if zero:
+            qvals.append(("zero-query", rng.choice([0.0, 0])))
     if full and rng.random() < 0.04:
         qvals.append(("nan-query", math.nan))
     return qvals
@@ -711,9 +837,15 @@ def gen_cases(ctx):
         for f in sorted(os.listdir(cdir)):
             if f.endswith(".json"):
                 cases.append(json.load(open(os.path.join(cdir, f))))
-    for _ in range(90 if not thorough else 450):
-        cases.append(gen_series(rng, thorough))
-    for _ in range(60 if not thorough else 300):
+    forced = [{"akind": "zerospan", "history": True}, {"akind": "zeronode", "history": True},
+              {"special": "attr_order", "history": True}, {"special": "alias", "history": True},
+              {"special": "numbered", "history": True}, {"special": "numbered"}]
+    # VERIF_C20_FORCED_ONLY=1 (builders' knob, not used by ./check runs that count): only the forced series of this seed,
+    # which are the first draws of the seed's random stream and therefore identical to those of the full run
+    only_forced = bool(os.environ.get("VERIF_C20_FORCED_ONLY"))
+    for k in range(len(forced) if only_forced else 84 if not thorough else 420):
+        cases.append(gen_series(rng, thorough, force=forced[k] if k < len(forced) else None))
+    for _ in range(0 if only_forced else 60 if not thorough else 300):
         cases.append(gen_linreg(rng))
     return cases
 
@@ -910,7 +1042,8 @@ def oracle_order(s, qs, rs):
     fails = []
     groups = {}
     for qi, (q, r) in enumerate(zip(qs, rs)):
-        groups.setdefault((q["method"], json.dumps(q["path"]), json.dumps(q["value"], sort_keys=True)), []).append(qi)
+        groups.setdefault((q["method"], json.dumps(q["path"]), json.dumps(q["value"], sort_keys=True),
+                           json.dumps(sorted(q["perm"]))), []).append(qi)
     for key, idxs in groups.items():
         base = None
         for qi in idxs:
@@ -925,7 +1058,8 @@ def oracle_order(s, qs, rs):
                 def val(leaf):
                     leaf = leaf or {}
                     return leaf.get("f", leaf.get("a"))
-                obs = ("new", tuple((p, val(t_get_any(r["tree"], p))) for p in walk(insts[0], tuples=True) if p != qpath))
+                obs = ("new", tuple(sorted(((p, val(t_get_any(r["tree"], p))) for p in walk(insts[0], tuples=True) if p != qpath),
+                                           key=repr)))
             else:
                 obs = ("exc",)
             if base is None:
@@ -1009,6 +1143,19 @@ def ccase(c, r):
 # ---------------------------------------------------------------------------
 # run
 # ---------------------------------------------------------------------------
+def history_of(c, q):
+    """q preceded by the earlier queries on the same interpolator object (and the earlier uses of a kept Equality)"""
+    def key(x):
+        return (x.get("obj") or tuple(x["perm"]), x["method"])
+    out = []
+    for x in c["queries"]:
+        if key(x) == key(q) or (q.get("route") == "reuse" and x.get("route") == "reuse" and x["path"] == q["path"] and x["value"] == q["value"]):
+            out.append(x)
+        if x is q:
+            break
+    return out[-12:]
+
+
 def replayable(c, queries):
     """the abstract input of a failing case, as it was generated (so that --replay rebuilds the same objects)"""
     one = {k: v for k, v in c.items() if k != "gen_insts"}
@@ -1052,7 +1199,15 @@ def run(ctx):
                 "aliased at two attributes, with numpy.float64 leaves or with 0-d array leaves; data linear, quadratic, random or constant "
                 "in the variable; abscissae dyadic, arbitrary, int, mixed, repeated or containing -0.0; variable at the root or nested, "
                 "often a second variable queried on the same interpolator object, interleaved, one query repeated), supplied in up to "
-                "three orders, queried at nodes, inside, outside, one ulp beside a node, at +-inf and nan; plus exact-least-squares cases. "
+                "three orders, queried at nodes (smallest / largest / any), inside, outside, one ulp beside a node, at 0 / 0.0 / -0.0 (sampled or "
+                "not), at +-inf and nan; every query through one of four routes (attribute chain, explicit InterpolatorPath/Equality, kept "
+                "prefix path objects, a kept Equality object asked again, also of other interpolators); in half of the series (and in six "
+                "forced series of every run: abscissae spanning / containing zero, attributes set in different orders, one component twice "
+                "in a list, collections whose item NAMES are digits that differ from the items' positions) a history on ONE interpolator "
+                "object: query, `instances` assigned a sub-series, a query that raises, the list edited in place, the returned instance "
+                "edited by the caller, the same query again -- each answer judged as that of a fresh interpolator over the current series; "
+                "names with digits / underscores / dots (dict keys) and names the library uses on its own objects (value, path, cls, items, "
+                "model, prior ...); plus exact-least-squares cases. "
                 "Non-trivial: the query is within the property's quantifier (same shape, distinct finite abscissae, finite value) and "
                 "either it is off-node with >= 2 interpolated float leaves, or it is at a node of a series supplied in non-sorted order; "
                 "distinct = distinct (series, order, method, path, value)")
@@ -1148,7 +1303,19 @@ def run(ctx):
         ctx.hist("special", ",".join(k for k in ("alias", "npfloat", "array_leaves", "frozen", "second_variable") if feats.get(k)) or "none")
         ctx.hist("dict_floats", has_dict_float(c["insts"][0]))
         ctx.hist("tuple_floats", has_tuple_float(c["insts"][0]))
-        ctx.hist("orders", len({tuple(q["perm"]) for q in c["queries"]}))
+        ctx.hist("orders", len({tuple(q["perm"]) for q in c["queries"] if not q.get("obj")}))
+        ctx.hist("object_history", "series changed on one object" if feats.get("history") else "none")
+        ctx.hist("attr_order_differs", bool(feats.get("attr_order")))
+        ctx.hist("digit_item_names", bool(feats.get("numbered")))
+        ctx.hist("alias_in_list", bool(feats.get("alias_in_list")))
+        for q, rq in zip(c["queries"], r["queries"]):
+            ctx.hist("route", q.get("route", "chain"))
+            if q.get("obj"):
+                ctx.hist("history_step", "%s%s" % (q.get("qkind"), "/" + q["how"] if q.get("how") else ""))
+            if q.get("qkind") in ("zero-query", "node-min", "node-max"):
+                ctx.hist("boundary_query", "%s:%s:%s" % (q["qkind"], "int" if "i" in q["value"] else
+                                                          ("-0.0" if q["value"]["f"].startswith("-0x0.0") else "0.0") if q["qkind"] == "zero-query" else "float",
+                                                          rq["kind"]))
         if not all(r["abs_ok"]):
             ctx.obligation("abstraction", "harness", False, "abstract(build(tree)) != tree in series %d" % i)
         small = {"insts": c["insts"], "feats": feats}
@@ -1174,7 +1341,9 @@ def run(ctx):
                     pinned[feats["corpus"]].append("query raised %s" % rq.get("exc"))
             for msg, classes in fails:
                 ctx.oracle["failures"] += 1
-                ctx.failure("oracle", msg, replayable(c, [q]), classes=classes, impl={k: v for k, v in rq.items() if k != "oracle"})
+                ctx.failure("oracle", msg + ("" if len(history_of(c, q)) == 1 else " [query %d of a history on one interpolator object: %s]" % (
+                    len(history_of(c, q)), ",".join("%s/%s" % (x.get("qkind"), x.get("route")) for x in history_of(c, q)))),
+                    replayable(c, history_of(c, q)), classes=classes, impl={k: v for k, v in rq.items() if k != "oracle"})
         for qi, msg, classes in oracle_order(c, c["queries"], r["queries"]):
             ctx.oracle["failures"] += 1
             ctx.failure("oracle", msg, replayable(c, c["queries"]), classes=classes, impl=None)
@@ -1229,7 +1398,14 @@ MANIFEST = {
             "bit-exact vm_compute correspondence of the binary64 instance (scipy values as oracle tables) with "
             "LinearInterpolator/SplineInterpolator on generated series (two interpolation variables interleaved and repeated on one "
             "interpolator object, instances built by ModelInstance or by a Collection, frozen, aliased components, numpy.float64 and "
-            "0-d array leaves, inf/nan/-0.0 queries, -0.0 and infinite abscissae); the order / known-point / per-leaf / definedness "
+            "0-d array leaves, inf/nan/-0.0 queries, -0.0 and infinite abscissae; histories on one interpolator object whose series is "
+            "re-assigned / edited in place between queries, with a raising query and a caller-edited result in between; four routes to "
+            "one query; attribute orders differing between instances; one component twice in a list; digit item names that differ from "
+            "positions; zero as node / value / interpolated result); the interpolator OBJECT is a state machine with an explicit answer "
+            "cache under an arbitrary policy (Machine.v): for EVERY sound policy every query of every history answers what a fresh "
+            "interpolator over the current series answers (C20_history_independent, C20_last_query_fresh), the code's policy (no cache) "
+            "is sound (C20_code_policy_sound), caching by value alone or ignoring a change of the series is refuted "
+            "(C20_cache_by_value_refuted, C20_cache_ignoring_series_refuted); the order / known-point / per-leaf / definedness "
             "theorems are also stated and PROVED for that binary64 instance (C20_*_f64: comparisons PrimFloat.leb / PrimFloat.eqb, "
             "hypothesis on the numbers = no NaN among the abscissae -- none on the query value; C20_order_laws_f64, from the FloatAxioms "
             "specification axioms of the Coq library); that hypothesis (for the value too) and `distinct abscissae` are decided by vm_compute on every run (hyps_F, "
@@ -1252,6 +1428,8 @@ MANIFEST = {
             "inside tuples are not interpolated (no small safe repair: shared walk). Repaired in /repo and pinned by regression "
             "obligations + theorems C20_variable_code / C20_leaf_code / C20_dict_code: discarded final replacement, spline results "
             "as 0-d arrays, floats below dict-valued attributes (query raised). Not covered: "
+            "an interpolation variable whose name is an attribute of the interpolator / path objects themselves (`instances`, `keys`, "
+            "`get_value`: the attribute chain cannot address it, the explicit InterpolatorPath route can -- not generated), "
             "CovarianceInterpolator, NaN abscissae, int abscissae beyond 2^53 (Python compares int with float exactly, the model through Z2F).",
     "technique": "machine-checked proof in Coq (translator-regenerated model) + vm_compute correspondence",
 }
